@@ -739,10 +739,22 @@ func (x *run) blackBoxQuery(c *srv.Conn, rng *rand.Rand, key string, sample bool
 		}
 	}
 	// radius: around the distance of a random object, exactly a distance, tiny, huge
-	for t := 0; t < 3; t++ {
+	// radii beyond any distance on the sphere: everything must come back (the property knows no
+	// normalisation of the radius): above the circumference 2*pi*R, exactly the circumference and
+	// its neighbours, multiples of it plus a little, 1e9, the largest float
+	const circ = 2 * math.Pi * 6371e3
+	huge := []float64{45e6, 5e7, circ, math.Nextafter(circ, 0), math.Nextafter(circ, 1e9), circ + 1, 2*circ + 1000, 3*circ + float64(rng.Intn(2000000)), 1e9, 1e15, math.MaxFloat64}
+	for t := 0; t < 5; t++ {
 		var rad float64
 		pick := u.ds[rng.Intn(len(u.ds))]
-		switch rng.Intn(5) {
+		sel := rng.Intn(5)
+		if t >= 3 {
+			sel = 5
+		}
+		switch sel {
+		case 5:
+			rad = huge[rng.Intn(len(huge))]
+			r.Dist("radius-huge")
 		case 0:
 			rad = pick
 		case 1:
